@@ -42,6 +42,12 @@ Theorem C12_vmdk_sparse_accepts : forall m, vmdk_sparse_gate m = Ok tt ->
 Proof. exact vmdk_sparse_accepts. Qed.
 Print Assumptions C12_vmdk_sparse_accepts.
 
+Theorem C12_vmdk_layout_accepts : forall m m64, vmdk_layout_gate m m64 = Ok tt ->
+  m = Gen.Consts.vmdk_VMDK_MAGIC \/ m = Gen.Consts.vmdk_COWD_MAGIC \/
+  (m = Gen.Consts.vmdk_SESPARSE_MAGIC /\ m64 = Gen.Consts.vmdk_SESPARSE_CONST_HEADER_MAGIC).
+Proof. exact vmdk_layout_accepts. Qed.
+Print Assumptions C12_vmdk_layout_accepts.
+
 Theorem C12_vmdk_footer_accepts : forall hm uf fm, vmdk_footer_gate hm uf fm = Ok tt ->
   (hm = Gen.Consts.vmdk_VMDK_MAGIC \/ hm = Gen.Consts.vmdk_SESPARSE_MAGIC \/ hm = Gen.Consts.vmdk_COWD_MAGIC) /\
   (uf = true -> fm = Gen.Consts.vmdk_VMDK_MAGIC \/ fm = Gen.Consts.vmdk_COWD_MAGIC).
